@@ -62,7 +62,7 @@ func exhaustivePair(k int) (m, n int) {
 
 func runFees(f *hx.Flags, o *hx.Out) {
 	corpus := feesCorpus()
-	nRandom := f.N(1400, 12000)
+	nRandom := f.N(1400, 24000)
 	total := nExhaustive + len(corpus) + nRandom
 	for k := 0; k < total; k++ {
 		if !f.Want(k) {
